@@ -1,4 +1,5 @@
 import JadeModel.Proofs.SystemOutcome
+import JadeModel.Proofs.RefBridge
 import JadeModel.Proofs.SystemGate
 import JadeModel.Props.Queue
 import JadeModel.Props.C01
@@ -90,6 +91,44 @@ theorem C03_queue_independent_of_schedule : type_of% @Jade.QueueProps.run_indepe
 theorem C03_queue_one_row_per_job : type_of% @Jade.QueueProps.run_complete := @Jade.QueueProps.run_complete
 theorem C03_queue_row_at_most_once : type_of% @Jade.QueueProps.row_at_most_once := @Jade.QueueProps.row_at_most_once
 theorem C03_queue_drains : type_of% @Jade.QueueProps.run_drains := @Jade.QueueProps.run_drains
+
+/-- **Local mode = HPC mode.** Run the whole configuration through one `JobQueue` (what local mode
+    does), with any worker count and poll schedule, to the end; run it on the HPC under any op sequence.
+    Every row the HPC run ever has on disk is a row of the local run (same job, same return code, same
+    finished/canceled status). -/
+theorem C03_local_equals_hpc (sc : Scn) (rank : JobId → Nat) (hac : Acyclic sc.graph rank)
+    (d : Nat) (sched : List (List Jade.Queue.Poll)) (hs : Jade.QueueProps.SchedOk sc.rc sched)
+    (r : Jade.Queue.RunOut) (hr : Jade.Queue.runAll d (Jade.RefBridge.jobsOf sc) sched = .ok r) (hdr : r.drained = true)
+    (ops : List Op) (s : Sys) (h : run (init sc) ops = some s) (R : Row) (hR : OnDisk s R) (hj : R.job < sc.n) :
+    (R.job, (Jade.RefBridge.toPair R.outcome).1, (Jade.RefBridge.toPair R.outcome).2) ∈ r.final.rows := by
+  have hn : ((Jade.RefBridge.jobsOf sc).map (·.id)).Nodup := by
+    have : (Jade.RefBridge.jobsOf sc).map (·.id) = List.range sc.n := by
+      simp [Jade.RefBridge.jobsOf, List.map_map, Function.comp_def]
+    rw [this]; exact List.nodup_range
+  have hlen : (Jade.RefBridge.jobsOf sc).length = sc.n := by simp [Jade.RefBridge.jobsOf]
+  have hmem : ∀ x ∈ Jade.RefBridge.jobsOf sc, x.id < sc.n ∧ x.blockers = sc.blockers x.id := by
+    intro x hx
+    simp only [Jade.RefBridge.jobsOf, List.mem_map, List.mem_range] at hx
+    obtain ⟨j, hj, rfl⟩ := hx
+    exact ⟨hj, rfl⟩
+  have hca : Jade.Queue.ClosedAcyclic (Jade.RefBridge.jobsOf sc) := by
+    refine ⟨?_, rank, ?_⟩
+    · intro x hx b hb
+      obtain ⟨hxn, hxb⟩ := hmem x hx
+      rw [hxb] at hb
+      have hbn := hac.inside x.id hxn b hb
+      exact ⟨{ id := b, blockers := sc.blockers b, cancelFlag := sc.flag b },
+        by simp only [Jade.RefBridge.jobsOf, List.mem_map, List.mem_range]; exact ⟨b, hbn, rfl⟩, rfl⟩
+    · intro x hx
+      obtain ⟨hxn, hxb⟩ := hmem x hx
+      refine ⟨by rw [hlen]; exact hac.bound x.id hxn, ?_⟩
+      intro b hb
+      rw [hxb] at hb
+      exact hac.lt x.id hxn b hb
+  rw [Jade.QueueProps.rows_eq_ref d _ sched sc.rc hn hca hs r hr hdr]
+  refine ⟨{ id := R.job, blockers := sc.blockers R.job, cancelFlag := sc.flag R.job },
+    by simp only [Jade.RefBridge.jobsOf, List.mem_map, List.mem_range]; exact ⟨R.job, hj, rfl⟩, rfl, ?_⟩
+  rw [Jade.RefBridge.ref_eq sc hac.inside R.job hj, ← C03_rows_equal_reference sc rank hac ops s h R hR hj]
 
 /-- results.json: successful + failed + canceled + missing = configured jobs -/
 theorem C03_summary_tally : type_of% @Jade.C20.tally_sum := @Jade.C20.tally_sum
